@@ -1,10 +1,391 @@
 import PestModel.Model.Ref
+import PestModel.Model.RefSpec
 import PestModel.Model.Lower
-/-! # C01 — placeholder until the theorems land. -/
-namespace PestModel.C01
-open PestModel.G
+import PestModel.Model.Views
+import PestModel.Lemmas.VmRef
+import PestModel.Lemmas.VmRefTop
+import PestModel.Lemmas.VmRefCex
+/-!
+# C01 — parsing conforms to the documented PEG semantics
 
-theorem smoke : rotateExpr (.seq (.seq (.str ['a']) (.str ['b'])) (.str ['c'])) =
-    .seq (.str ['a']) (.seq (.str ['b']) (.str ['c'])) := by decide
+`PestModel.Ref` is the documented semantics written as an independent big-step denotation.
+`PestModel.Lower.vmExpr`/`vmRule` is `pest_vm::Vm::{parse_rule, parse_expr, skip}` as call trees over
+the `ParserState` model (`PestModel.PS.run`), which C03 proves things about and which the V-line
+correspondence ties to the real VM.
+
+The two statements as first written (`VmRefinesDenoteStmt`, `VmTerminatesStmt`: agreement for EVERY
+optimized grammar) are FALSE of the model; they are kept as named propositions and refuted from
+concrete grammars (`vm_refines_denote_refuted_*`, `vm_terminates_refuted`). What holds — and is proved
+here for every optimized grammar, start rule, input and amount of fuel — are
+`vm_refines_denote_partial` and `vm_terminates_partial`, under side conditions that exclude exactly
+the three classes of counterexamples:
+
+* a node tag on an expression that emits no token tags the PREVIOUS token (`tag_node` patches
+  `queue.last_mut()`), and without `grammar-extras` the restorer does not look inside `#t = e`
+  (side condition `TagRules`: node tags only with `grammar-extras` and only on operands that are
+  guaranteed to emit a token in every mode the enclosing rule can be entered in; in particular every
+  grammar without node tags qualifies);
+* the implicit `skip` (`WHITESPACE`/`COMMENT` between sequence elements) is not an expression of the
+  grammar, so the restorer never wraps it: a `WHITESPACE`/`COMMENT` that fails after popping
+  (`POP`, `POP_ALL`) leaves the stack changed — results differ, and the VM can even loop for ever
+  where the reference answers;
+* (a model artefact) "undefined rule" is `call 1000000000`, an existing slot once the grammar has more
+  than 333 333 333 rules.
+-/
+namespace PestModel.C01
+open PestModel.G PestModel.PS PestModel.Lower PestModel.Ref
+open PestModel.LineCol (Str)
+
+/-- `Vm::parse(name, input)` on the model: the entry call tree run from a fresh `ParserState`
+(no call limit). -/
+def vmParse (rs : List ORule) (uni : String → Option CharSet) (memchr detail : Bool) (fuel : Nat)
+    (name : String) (input : Str) : Out :=
+  let env : Env := { rules := rs, uni }
+  run { memchr, env := lowerAll .vm env } fuel (entry env name) (PState.new input none detail)
+
+/-- rule sets that come out of the optimizer model (in particular: through the restorer pass). -/
+def Optimized (extras : Bool) (rs : List ORule) : Prop :=
+  ∃ rules withList, optimizeWith extras withList rules = some rs
+
+/-- **The VM refines the documented semantics** — the statement as first written, for every optimized
+grammar: whatever definite outcome the VM model reaches is the outcome the reference denotation
+assigns to the same (optimized) grammar: on success the same end position and stack and a token queue
+that is exactly the encoding of the reference's forest of pairs; a failure is a failure; a Rust panic
+is a `stuck` (documented panic: `PEEK`/`POP` on an empty stack, undefined rule).
+FALSE as it stands: `vm_refines_denote_refuted_tag`, `vm_refines_denote_refuted_ws`,
+`vm_refines_denote_refuted_tag_noextras`, `vm_refines_denote_refuted_undefined_slot`; true under side
+conditions: `vm_refines_denote_partial`. -/
+def VmRefinesDenoteStmt : Prop :=
+  ∀ (extras : Bool) (rs : List ORule) (_hopt : Optimized extras rs)
+    (uni : String → Option CharSet) (memchr detail : Bool) (fuel : Nat) (name : String) (input : Str),
+    match vmParse rs uni memchr detail fuel name input with
+    | .ok st => ∃ forest, PestModel.Views.build forest = st.queue ∧
+        Means (ofOptimizedRules rs) extras uni name input (.ok ⟨st.pos, st.stack.cache⟩ forest)
+    | .err _ => Means (ofOptimizedRules rs) extras uni name input .fail
+    | .panic => Means (ofOptimizedRules rs) extras uni name input .stuck
+    | .fuel => True
+
+/-- **… and terminates whenever the reference does** — the statement as first written: if the
+reference assigns a definite outcome, the VM model reaches a definite outcome too.
+FALSE as it stands: `vm_terminates_refuted`; true under side conditions: `vm_terminates_partial`. -/
+def VmTerminatesStmt : Prop :=
+  ∀ (extras : Bool) (rs : List ORule) (_hopt : Optimized extras rs)
+    (uni : String → Option CharSet) (memchr detail : Bool) (name : String) (input : Str) (r : Res)
+    (_h : Means (ofOptimizedRules rs) extras uni name input r),
+    ∃ fuel, vmParse rs uni memchr detail fuel name input ≠ .fuel
+
+/-! ### what holds -/
+
+/-- **The VM refines the documented semantics — proved form.** `VmRefinesDenoteStmt` with the side
+conditions that turned out to be necessary (see the refutations below):
+* `htag : TagRules extras rs`: node tags (`#t = e`) occur only with `grammar-extras`, and only on
+  operands `e` that emit at least one token (`VmRef.emits`: a reference to a rule that produces a pair
+  in the current atomicity mode, possibly inside `~`, `|` (both sides), `PUSH`, `+`, another tag) in
+  every mode the enclosing rule can be entered in (`VmRef.Reach`); grammars without node tags satisfy
+  it trivially (`vm_refines_denote_notag`);
+* `hws`/`hcm`: the restorer's own analysis (`modifies`) says that the implicit `WHITESPACE` / `COMMENT`
+  rules do not touch the stack;
+* `hsize`: at most a third of a billion rules (the model's "undefined rule" is `call 1000000000`). -/
+theorem vm_refines_denote_partial (extras : Bool) (rs : List ORule) (hopt : Optimized extras rs)
+    (htag : PestModel.VmRef.TagRules extras rs)
+    (hws : modifies extras rs (.ident "WHITESPACE") = false)
+    (hcm : modifies extras rs (.ident "COMMENT") = false)
+    (hsize : rs.length ≤ 333333333)
+    (uni : String → Option CharSet) (memchr detail : Bool) (fuel : Nat) (name : String) (input : Str) :
+    match vmParse rs uni memchr detail fuel name input with
+    | .ok st => ∃ forest, PestModel.Views.build forest = st.queue ∧
+        Means (ofOptimizedRules rs) extras uni name input (.ok ⟨st.pos, st.stack.cache⟩ forest)
+    | .err _ => Means (ofOptimizedRules rs) extras uni name input .fail
+    | .panic => Means (ofOptimizedRules rs) extras uni name input .stuck
+    | .fuel => True := by
+  have htx : ∀ r ∈ rs, PestModel.VmRef.tagsExtras extras r.expr := fun r hr =>
+    PestModel.VmRef.tagsExtras_of_tagOK (htag r hr .nonAtomic (.entry r.name))
+  have hgood := PestModel.VmRef.goodRules_of_optimized extras rs hopt htx hws hcm
+  have h := PestModel.VmRef.refines_top' { rules := rs, uni } extras memchr detail input hsize hgood htag
+    fuel name
+  unfold vmParse
+  simp only [means_iff]
+  cases hr : run { memchr := memchr, env := lowerAll .vm { rules := rs, uni := uni } } fuel
+      (entry { rules := rs, uni := uni } name) (PState.new input none detail) with
+  | ok st =>
+    have h' := h
+    simp only [PestModel.VmRef.mkCfg, hr] at h'
+    obtain ⟨forest, hb, hv⟩ := h'
+    exact ⟨forest, hb, by simp, hv⟩
+  | err st =>
+    have h' := h
+    simp only [PestModel.VmRef.mkCfg, hr] at h'
+    exact ⟨by simp, h'⟩
+  | panic =>
+    have h' := h
+    simp only [PestModel.VmRef.mkCfg, hr] at h'
+    exact ⟨by simp, h'⟩
+  | fuel => trivial
+
+/-- **… and terminates whenever the reference does — proved form** (same side conditions): if the
+reference assigns a definite outcome, the VM model reaches a definite outcome too (which, by
+`vm_refines_denote_partial`, is that one). -/
+theorem vm_terminates_partial (extras : Bool) (rs : List ORule) (hopt : Optimized extras rs)
+    (htag : PestModel.VmRef.TagRules extras rs)
+    (hws : modifies extras rs (.ident "WHITESPACE") = false)
+    (hcm : modifies extras rs (.ident "COMMENT") = false)
+    (hsize : rs.length ≤ 333333333)
+    (uni : String → Option CharSet) (memchr detail : Bool) (name : String) (input : Str) (r : Res)
+    (h : Means (ofOptimizedRules rs) extras uni name input r) :
+    ∃ fuel, vmParse rs uni memchr detail fuel name input ≠ .fuel := by
+  have htx : ∀ r ∈ rs, PestModel.VmRef.tagsExtras extras r.expr := fun r hr =>
+    PestModel.VmRef.tagsExtras_of_tagOK (htag r hr .nonAtomic (.entry r.name))
+  have hgood := PestModel.VmRef.goodRules_of_optimized extras rs hopt htx hws hcm
+  exact PestModel.VmRef.terminates_top { rules := rs, uni } extras memchr detail input hsize hgood htag
+    name r h
+
+/-- the special case of grammars without node tags. -/
+theorem vm_refines_denote_notag (extras : Bool) (rs : List ORule) (hopt : Optimized extras rs)
+    (htag : ∀ r ∈ rs, PestModel.VmRef.noTag r.expr = true)
+    (hws : modifies extras rs (.ident "WHITESPACE") = false)
+    (hcm : modifies extras rs (.ident "COMMENT") = false)
+    (hsize : rs.length ≤ 333333333)
+    (uni : String → Option CharSet) (memchr detail : Bool) (fuel : Nat) (name : String) (input : Str) :
+    match vmParse rs uni memchr detail fuel name input with
+    | .ok st => ∃ forest, PestModel.Views.build forest = st.queue ∧
+        Means (ofOptimizedRules rs) extras uni name input (.ok ⟨st.pos, st.stack.cache⟩ forest)
+    | .err _ => Means (ofOptimizedRules rs) extras uni name input .fail
+    | .panic => Means (ofOptimizedRules rs) extras uni name input .stuck
+    | .fuel => True :=
+  vm_refines_denote_partial extras rs hopt (PestModel.VmRef.tagRules_of_noTag extras rs htag) hws hcm hsize
+    uni memchr detail fuel name input
+
+theorem vm_terminates_notag (extras : Bool) (rs : List ORule) (hopt : Optimized extras rs)
+    (htag : ∀ r ∈ rs, PestModel.VmRef.noTag r.expr = true)
+    (hws : modifies extras rs (.ident "WHITESPACE") = false)
+    (hcm : modifies extras rs (.ident "COMMENT") = false)
+    (hsize : rs.length ≤ 333333333)
+    (uni : String → Option CharSet) (memchr detail : Bool) (name : String) (input : Str) (r : Res)
+    (h : Means (ofOptimizedRules rs) extras uni name input r) :
+    ∃ fuel, vmParse rs uni memchr detail fuel name input ≠ .fuel :=
+  vm_terminates_partial extras rs hopt (PestModel.VmRef.tagRules_of_noTag extras rs htag) hws hcm hsize
+    uni memchr detail name input r h
+
+/-- the two together: the VM and the reference agree on every definite result. -/
+theorem vm_agrees_partial (extras : Bool) (rs : List ORule) (hopt : Optimized extras rs)
+    (htag : PestModel.VmRef.TagRules extras rs)
+    (hws : modifies extras rs (.ident "WHITESPACE") = false)
+    (hcm : modifies extras rs (.ident "COMMENT") = false)
+    (hsize : rs.length ≤ 333333333)
+    (uni : String → Option CharSet) (memchr detail : Bool) (name : String) (input : Str) (r : Res)
+    (h : Means (ofOptimizedRules rs) extras uni name input r) :
+    ∃ fuel, match vmParse rs uni memchr detail fuel name input with
+      | .ok st => ∃ forest, PestModel.Views.build forest = st.queue ∧
+          r = .ok ⟨st.pos, st.stack.cache⟩ forest
+      | .err _ => r = .fail
+      | .panic => r = .stuck
+      | .fuel => False := by
+  obtain ⟨fuel, hf⟩ := vm_terminates_partial extras rs hopt htag hws hcm hsize uni memchr detail name input r h
+  have hp := vm_refines_denote_partial extras rs hopt htag hws hcm hsize uni memchr detail fuel name input
+  have det : ∀ r', Means (ofOptimizedRules rs) extras uni name input r' → r = r' := by
+    intro r' h'
+    rw [means_iff] at h h'
+    rw [← h.2, ← h'.2]
+  refine ⟨fuel, ?_⟩
+  cases hr : vmParse rs uni memchr detail fuel name input with
+  | ok st =>
+    rw [hr] at hp
+    obtain ⟨forest, hb, hm⟩ := hp
+    exact ⟨forest, hb, det _ hm⟩
+  | err st => rw [hr] at hp; exact det _ hp
+  | panic => rw [hr] at hp; exact det _ hp
+  | fuel => exact hf hr
+
+/-! ### refutations of the statements as first written -/
+
+/-- what a successful parse shows. -/
+def outObs : Out → Option (List QTok × Nat × List Str)
+  | .ok s => some (s.queue, s.pos, s.stack.cache)
+  | _ => none
+
+/-- a successful VM parse and the reference's (definite) result for the same optimized grammar that
+differ in the token queue, the end position or the stack refute `VmRefinesDenoteStmt`. -/
+theorem refute_of_obs (extras : Bool) (src : List Rule) (rs : List ORule)
+    (hopt : optimizeWith extras true src = some rs) (fuel fuel' : Nat) (name : String) (input : Str)
+    (Q : List QTok) (pos : Nat) (stk : List Str) (σ : St) (F : List PestModel.Views.Tree)
+    (hvm : outObs (vmParse rs (fun _ => none) true false fuel name input) = some (Q, pos, stk))
+    (href : Ref.meaning (ofOptimizedRules rs) extras (fun _ => none) fuel' name input = .ok σ F)
+    (hne : ¬ (σ = ⟨pos, stk⟩ ∧ PestModel.Views.build F = Q)) : ¬ VmRefinesDenoteStmt := by
+  intro H
+  have h := H extras rs ⟨src, true, hopt⟩ (fun _ => none) true false fuel name input
+  cases hr : vmParse rs (fun _ => none) true false fuel name input with
+  | ok st =>
+    rw [hr] at h hvm
+    simp only [outObs, Option.some.injEq, Prod.mk.injEq] at hvm
+    obtain ⟨hq, hp, hs⟩ := hvm
+    obtain ⟨forest, hb, hm⟩ := h
+    have hm' : Means (ofOptimizedRules rs) extras (fun _ => none) name input (.ok σ F) :=
+      ⟨by simp, fuel', href⟩
+    rw [means_iff] at hm hm'
+    have := hm.2.symm.trans hm'.2
+    simp only [Res.ok.injEq] at this
+    obtain ⟨h1, h2⟩ := this
+    apply hne
+    rw [← h1, ← h2, hp, hs, hb, hq]
+    exact ⟨rfl, rfl⟩
+  | err st => rw [hr] at hvm; simp [outObs] at hvm
+  | panic => rw [hr] at hvm; simp [outObs] at hvm
+  | fuel => rw [hr] at hvm; simp [outObs] at hvm
+
+/-- `x = { "a" }  r = { x ~ #t = "b" }` (grammar-extras), input `"ab"`. -/
+def cexTagSrc : List Rule :=
+  [⟨"x", .normal, .str ['a']⟩,
+   ⟨"r", .normal, .seq (.ident "x") (.nodeTag (.str ['b']) ['t'])⟩]
+
+def cexTag : List ORule :=
+  [⟨"x", .normal, .str ['a']⟩,
+   ⟨"r", .normal, .seq (.ident "x") (.nodeTag (.str ['b']) ['t'])⟩]
+
+/-- **Refutation 1 (tag on a token-less expression).** `#t = "b"` emits no token, so `tag_node` —
+which patches `queue.last_mut()` — tags the End token of the PREVIOUS sibling `x`: the VM's queue is
+`[Start, Start, End(x, tag t), End(r)]`, while in the reference the tag is lost
+(`[.node r 0 2 none [.node x 0 1 none []]]`). -/
+theorem vm_refines_denote_refuted_tag : ¬ VmRefinesDenoteStmt :=
+  refute_of_obs true cexTagSrc cexTag (by decide) 12 12 "r" ['a', 'b']
+    [.start 3 0, .start 2 0, .end_ 1 0 (some ['t']) 1, .end_ 0 1 none 2] 2 []
+    ⟨2, []⟩ [.node 1 0 2 none [.node 0 0 1 none []]] (by decide +kernel) (by rfl) (by decide)
+
+/-- `WHITESPACE = _{ POP }  r = { PUSH("a") ~ "b" }`, input `"ab"`. -/
+def cexWsSrc : List Rule :=
+  [⟨"WHITESPACE", .silent, .ident "POP"⟩,
+   ⟨"r", .normal, .seq (.push (.str ['a'])) (.str ['b'])⟩]
+
+def cexWs : List ORule :=
+  [⟨"WHITESPACE", .silent, .ident "POP"⟩,
+   ⟨"r", .normal, .seq (.push (.str ['a'])) (.str ['b'])⟩]
+
+/-- **Refutation 2 (stack-modifying `WHITESPACE`).** The implicit `skip` after `PUSH("a")` runs
+`repeat(WHITESPACE)`; `POP` pops `"a"`, fails to match it against `"b"` and the repeat ends — with the
+stack already popped (nothing restores it: the restorer only wraps expressions of the grammar). The VM
+ends with an empty stack, the reference with `["a"]`. (Reproduces on the real VM; with either feature
+set.) -/
+theorem vm_refines_denote_refuted_ws : ¬ VmRefinesDenoteStmt :=
+  refute_of_obs true cexWsSrc cexWs (by decide) 12 12 "r" ['a', 'b']
+    [.start 1 0, .end_ 0 1 none 2] 2 []
+    ⟨2, [['a']]⟩ [.node 1 0 2 none []] (by decide +kernel) (by rfl) (by decide)
+
+/-- `r = { PUSH("a") ~ (#t = POP)? ~ "b" }` WITHOUT grammar-extras, input `"ab"`. -/
+def cexTagNoExtrasSrc : List Rule :=
+  [⟨"r", .normal, .seq (.push (.str ['a'])) (.seq (.opt (.nodeTag (.ident "POP") ['t'])) (.str ['b']))⟩]
+
+def cexTagNoExtras : List ORule :=
+  [⟨"r", .normal, .seq (.push (.str ['a'])) (.seq (.opt (.nodeTag (.ident "POP") ['t'])) (.str ['b']))⟩]
+
+/-- **Refutation 3 (node tag without grammar-extras).** Without the feature neither
+`iter_top_down` (in `child_modifies_state`) nor `map_bottom_up` descends into `NodeTag`, so the `POP`
+under the `?` is not seen and not wrapped in `restore_on_err`: the failed `POP` leaves the stack
+popped. (With grammar-extras the optimizer wraps it and both sides agree. The real meta-parser only
+produces `NodeTag` with the feature on, so this one is a fact about the model's optimizer input
+space.) -/
+theorem vm_refines_denote_refuted_tag_noextras : ¬ VmRefinesDenoteStmt :=
+  refute_of_obs false cexTagNoExtrasSrc cexTagNoExtras (by decide) 16 16 "r" ['a', 'b']
+    [.start 1 0, .end_ 0 0 none 2] 2 []
+    ⟨2, [['a']]⟩ [.node 0 0 2 none []] (by decide +kernel) (by rfl) (by decide)
+
+/-- **Refutation 4 (the "undefined rule" slot — an artefact of the model's encoding).** The lowering
+encodes `panic!("undefined rule")` as `call 1000000000`. In a grammar with 333 333 334 rules
+(`r0 = _{ NOSUCH }` followed by 333 333 333 copies of `x = _{ "" }`) that slot exists: it is rule
+number 333 333 333 in the atomic context, so the VM model runs that rule and succeeds where the
+reference (and the real VM) report an undefined rule. Hence the hypothesis `rs.length ≤ 333333333` of
+the proved forms. (Proved for a symbolic rule count; the rule list is never evaluated.) -/
+theorem vm_refines_denote_refuted_undefined_slot : ¬ VmRefinesDenoteStmt := by
+  have key : ∀ N : Nat, 3 * N + 1 = 1000000000 → ¬ VmRefinesDenoteStmt := by
+    intro N hN H
+    have h := H true (PestModel.VmRef.bigRs N)
+      ⟨PestModel.VmRef.bigSrc N, true, PestModel.VmRef.big_opt _⟩ (fun _ => none) true false 3 "r0" []
+    obtain ⟨st, hst⟩ := PestModel.VmRef.big_vm N hN
+    have hv : vmParse (PestModel.VmRef.bigRs N) (fun _ => none) true false 3 "r0" [] = .ok st := hst
+    rw [hv] at h
+    obtain ⟨forest, -, hm⟩ := h
+    have hs : Means (ofOptimizedRules (PestModel.VmRef.bigRs N)) true (fun _ => none) "r0" [] .stuck :=
+      ⟨by simp, 3, PestModel.VmRef.big_ref _ _⟩
+    rw [means_iff] at hm hs
+    have := hm.2.symm.trans hs.2
+    cases this
+  exact key 333333333 (by decide)
+
+theorem vm_refines_denote_refuted : ¬ VmRefinesDenoteStmt := vm_refines_denote_refuted_ws
+
+/-- **Refutation of termination (stack-modifying `WHITESPACE`).**
+`WHITESPACE = _{ POP_ALL }  r = _{ PUSH("a") ~ "b" ~ "c" }` on `"abc"`: the first implicit `skip`
+empties the stack (a failed `POP_ALL` is not restored); on the empty stack `POP_ALL` succeeds without
+consuming, so the second `skip`'s `repeat(WHITESPACE)` never ends — the VM model has no definite
+outcome at any fuel (`cexDiv_diverges`), while the reference, whose failed `POP_ALL` leaves the stack
+alone, succeeds at position 3 with stack `["a"]`. -/
+theorem vm_terminates_refuted : ¬ VmTerminatesStmt := by
+  intro H
+  have hm : Means (ofOptimizedRules PestModel.VmRef.cexDiv) true (fun _ => none) "r" ['a', 'b', 'c']
+      (.ok ⟨3, [['a']]⟩ []) := ⟨by simp, 12, by rfl⟩
+  obtain ⟨fuel, hf⟩ := H true PestModel.VmRef.cexDiv ⟨_, true, PestModel.VmRef.cexDiv_opt true⟩
+    (fun _ => none) true false "r" ['a', 'b', 'c'] _ hm
+  exact hf (PestModel.VmRef.cexDiv_diverges fuel)
+
+/-! ### non-vacuity -/
+
+/-- non-vacuity: a two-rule grammar with implicit whitespace, a repetition and the stack. -/
+def exRules : List Rule :=
+  [⟨"WHITESPACE", .silent, .str [' ']⟩,
+   ⟨"r", .normal, .seq (.push (.ident "x")) (.seq (.rep (.str ['b'])) (.ident "POP"))⟩,
+   ⟨"x", .normal, .range 'a' 'b'⟩]
+
+theorem pos_of_obs {o : Out} {Q : List QTok} {p : Nat} {s : List Str} (h : outObs o = some (Q, p, s)) :
+    match o with | .ok st => st.pos = p | _ => False := by
+  cases o <;> simp [outObs] at h ⊢
+  exact h.2.1
+
+example : ∃ rs, optimizeWith false true exRules = some rs ∧
+    (match vmParse rs (fun _ => none) true false 200 "r" "a b a".toList with | .ok st => st.pos = 5 | _ => False) := by
+  refine ⟨(optimizeWith false true exRules).getD [], by decide, ?_⟩
+  have h : outObs (vmParse ((optimizeWith false true exRules).getD []) (fun _ => none) true false 200 "r"
+      "a b a".toList) = some ([.start 3 0, .start 2 0, .end_ 1 2 none 1, .end_ 0 1 none 5], 5, []) := by
+    decide +kernel
+  exact pos_of_obs h
+
+/-- … and the proved theorems apply to it: it satisfies all side conditions. -/
+example : ∃ rs, optimizeWith false true exRules = some rs ∧
+    PestModel.VmRef.TagRules false rs ∧
+    modifies false rs (.ident "WHITESPACE") = false ∧ modifies false rs (.ident "COMMENT") = false ∧
+    rs.length ≤ 333333333 := by
+  refine ⟨(optimizeWith false true exRules).getD [], by decide,
+    PestModel.VmRef.tagRules_of_noTag _ _ (by decide), by decide, by decide, by decide⟩
+
+/-- a grammar WITH a node tag that satisfies the side conditions (grammar-extras):
+`x = { "a" }  r = { #t = x ~ "b" }` — the tag sits on a reference to a normal rule, and `r` is only
+ever entered in the non-atomic mode, where `x` produces a pair. -/
+def exTagRules : List ORule :=
+  [⟨"x", .normal, .str ['a']⟩,
+   ⟨"r", .normal, .seq (.nodeTag (.ident "x") ['t']) (.str ['b'])⟩]
+
+theorem exTag_reach (n : String) (m : Atomicity) (h : PestModel.VmRef.Reach exTagRules n m) :
+    m = .nonAtomic := by
+  induction h with
+  | entry n => rfl
+  | @step n n' m r _ hf hi ih =>
+    subst ih
+    have hr : r ∈ exTagRules := List.mem_of_find?_eq_some hf
+    simp only [exTagRules, List.mem_cons, List.not_mem_nil, or_false] at hr
+    rcases hr with rfl | rfl
+    · simp [identsOf] at hi
+    · rfl
+
+example : Optimized true exTagRules ∧ PestModel.VmRef.TagRules true exTagRules ∧
+    modifies true exTagRules (.ident "WHITESPACE") = false ∧
+    modifies true exTagRules (.ident "COMMENT") = false ∧ exTagRules.length ≤ 333333333 ∧
+    outObs (vmParse exTagRules (fun _ => none) true false 12 "r" ['a', 'b']) =
+      some ([.start 3 0, .start 2 0, .end_ 1 0 (some ['t']) 1, .end_ 0 1 none 2], 2, []) := by
+  refine ⟨⟨[⟨"x", .normal, .str ['a']⟩, ⟨"r", .normal, .seq (.nodeTag (.ident "x") ['t']) (.str ['b'])⟩],
+    true, by decide⟩, ?_, by decide, by decide, by decide, by decide +kernel⟩
+  intro r hr m hm
+  have := exTag_reach _ _ hm
+  subst this
+  simp only [exTagRules, List.mem_cons, List.not_mem_nil, or_false] at hr
+  rcases hr with rfl | rfl
+  · trivial
+  · exact ⟨⟨rfl, by decide, trivial⟩, trivial⟩
 
 end PestModel.C01
